@@ -320,7 +320,8 @@ RULES = {
     "C08": "direct-driven gossipsub node, manual heartbeats, generated prune/unsubscribe back-offs, flood threshold, queue sizes 1-3 left "
            "undrained (dropped + retried control) or drained; histories (<= ~60 ops) of joins, leaves, heartbeats (also 14-16 in a row "
            "to meet the back-off sweep), received GRAFT/PRUNE (back-off absent, 0..300 s), departures and returns, time advances to the "
-           "k-th pending deadline +- delta; reference model noGraftBefore[topic,peer] (max-merge over the statement's events, never reads "
+           "k-th pending deadline +- delta; a quarter start with join + a GRAFT from every peer + heartbeat (mesh past Dhi before any "
+           "back-off exists); reference model noGraftBefore[topic,peer] (max-merge over the statement's events, never reads "
            "the router's table); every GRAFT is judged at the instant it is handed to the outbound queue; a GRAFT received before the "
            "deadline must be refused with PRUNE, penalised (1, or 2 inside the flood threshold of the last PRUNE) and extend the "
            "back-off; every PRUNE to a v1.1+ peer states the prune / unsubscribe back-off. Non-trivial: a graft opportunity or GRAFT "
